@@ -131,11 +131,12 @@ def cases(tier, seed):
     for pn in (["str-vs-regex"] if tier == "quick" else ["str-vs-regex", "custom", "strings-2"]):
         for mv in markvecs[: 2 if tier == "quick" else 3]:
             for pa in range(prmax + 1):
-                out.append({
-                    "name": "%s|lr|marks=%s|prior(A)=%d" % (pn, "".join("-" if m is None else "FN"[not m] for m in mv), pa),
-                    "params": {"pool": pn, "mode": "lr", "pa": pa, "prmax": prmax, "marks": mv, "icase": False},
-                    "budget_s": 3000,
-                })
+                for pb in range(prmax + 1):
+                    out.append({
+                        "name": "%s|lr|marks=%s|prior(A)=%d|prior(B)=%d" % (pn, "".join("-" if m is None else "FN"[not m] for m in mv), pa, pb),
+                        "params": {"pool": pn, "mode": "lr", "pa": pa, "pb": pb, "prmax": prmax, "marks": mv, "icase": False},
+                        "budget_s": 3000,
+                    })
     if tier != "quick":
         for pn in ("case", "str-vs-regex"):
             for pa in range(prmax + 1):
